@@ -32,6 +32,7 @@ fn run_line(prop: &str, args: &[&str]) -> String {
         "C15" => bcodec::run15(args),
         "C16" => bcodec::run16(args),
         "C13" => sess::run13(args),
+        "C14" if args[0] == "hand" => hand::run(args),
         "C14" => sess::run14(args),
         _ => panic!("unknown property {}", prop),
     }
@@ -60,7 +61,12 @@ fn gen(prop: &str, rng: &mut Rng, n: usize) -> Vec<String> {
         "C15" => bcodec::gen15(rng, n),
         "C16" => bcodec::gen16(rng, n, std::env::args().nth(5).map(|t| t == "thorough").unwrap_or(false)),
         "C13" => sess::gen13(rng, n),
-        "C14" => sess::gen14(rng, n),
+        "C14" => {
+            // manager histories, then the connection task's side: own-state broadcasts on the wire (C14_trace)
+            let mut v = sess::gen14(rng, n);
+            v.extend(hand::gen(rng, (n / 5).max(14), "C14"));
+            v
+        }
         _ => panic!("unknown property {}", prop),
     }
 }
